@@ -24,6 +24,7 @@ Definition show_pc (c : pc) : str :=
   | WantRemove None => L "X-"
   | WantRemove (Some i) => L "X" ++ dec i
   | Waiting => L "W"
+  | GaveUp => L "G"
   | Held i => L "H" ++ dec i
   | Done => L "D"
   | Dead => L "Z"
@@ -49,7 +50,7 @@ Definition show_event (e : event) : str :=
   match e with
   | TryCreate p => L "c" ++ dec p | WritePid p => L "w" ++ dec p | Read p => L "r" ++ dec p
   | Probe p => L "p" ++ dec p | Remove p => L "x" ++ dec p | Wake p => L "k" ++ dec p
-  | Unlock p => L "u" ++ dec p | Crash p => L "!" ++ dec p
+  | Unlock p => L "u" ++ dec p | Crash p => L "!" ++ dec p | Cancel p => L "a" ++ dec p
   end.
 
 Definition guard_flag (s : state) (e : event) : str :=
